@@ -17,6 +17,7 @@ func init() {
 			Explanation: "Snapshot restore and credentials, the parts visible in code shape: handleRestore first replaces the stored credentials on every path (so they reflect the most recent restore even when the runtime never polled for restore) and fails with ErrRestoreUpdateCredentials if that fails, installs the restore renderer, returns at once without releasing anybody when the runtime is not parked in RestoreReady, and otherwise releases the runtime, waits for its next poll under a deadline of now + RestoreHookTimeoutMs, and lets a recorded first fatal error override the result; the deadline wait cancels the init flow with the timeout error (C11). " +
 				"The automaton rows for restore (Started/RestoreReady parks and yields Restoring; Restoring/Ready arrives at the runtime-ready gate; Restoring/RestoreError cancels the init flow with the user error) are the documented ones; /restore/error and /init/error build the error type only through the sanitiser, and /init/error is routed to RestoreError exactly when the runtime is Restoring. " +
 				"The credentials route exists only in snapshot mode; its handler writes credentials only on the nil-error edge of GetCredentials(Authorization header) and answers 404 otherwise; GetCredentials finds an entry only under the presented token; the token generated at init (a random UUID) is the value placed in the runtime's environment and the key under which the credentials are stored; the init-caching environment function receives no key/secret/session and stores only the URI and the token. " +
+				"Added after the blind rounds: the restore entry point is not serialised with init; the deadline wait returns the timeout error or the waiter's result; credentials are refreshed only with exactly one token; the error-type sanitiser's language. " +
 				"NOT decided: the order quantifier over {restore request, poll, hook, exit}; 'no later than shortly after the hook timeout'.",
 			RuleText:    "one obligation per step/guard of handleRestore, per automaton cell concerned, per handler rule, per wiring edge of token and credentials",
 			Assumptions: trusted,
@@ -237,7 +238,10 @@ func checkCredentials(c *report.Ctx) {
 			if cal == "fmt.Fprint" || cal == "encoding/json.Marshal" || cal == "net/http.ResponseWriter.Write" {
 				nw++
 				if len(gc) != 1 || !facts.Holds(in.Block(), func(ft an.Fact) bool {
-					return an.CmpNil(ft, true, func(v ssa.Value) bool { cl, idx := an.CallOf(v); return cl != nil && ssa.Instruction(cl) == ssa.Instruction(gc[0]) && idx == 1 })
+					return an.CmpNil(ft, true, func(v ssa.Value) bool {
+						cl, idx := an.CallOf(v)
+						return cl != nil && ssa.Instruction(cl) == ssa.Instruction(gc[0]) && idx == 1
+					})
 				}) {
 					okW = false
 				}
@@ -248,7 +252,10 @@ func checkCredentials(c *report.Ctx) {
 		for _, call := range an.CallsTo(f, "net/http.Error") {
 			n, k := an.ConstInt(call.Common().Args[2])
 			ok404 = k && n == 404 && len(gc) == 1 && facts.Holds(call.Block(), func(ft an.Fact) bool {
-				return an.CmpNil(ft, false, func(v ssa.Value) bool { cl, idx := an.CallOf(v); return cl != nil && ssa.Instruction(cl) == ssa.Instruction(gc[0]) && idx == 1 })
+				return an.CmpNil(ft, false, func(v ssa.Value) bool {
+					cl, idx := an.CallOf(v)
+					return cl != nil && ssa.Instruction(cl) == ssa.Instruction(gc[0]) && idx == 1
+				})
 			})
 		}
 		c.Check("R-CONST", name+"/unknown-token-404", "any other token is answered 404 with nothing from the store", ok404, fpos(f), 1, "%v", ok404)
